@@ -755,8 +755,8 @@ func keyjsonGen(r *Rng, tier string, idx int, args map[string]string) []string {
 			f := Pick(r, mapFields)
 			sets := []map[string]float64{
 				nil, {}, {"": 1}, {"a": 1}, {"a": 1, "b": 2}, {"b": 1, "a": 2}, {"a": 2, "b": 1}, {"ab": 1}, {"a": 1, "": 2},
-				{"a\xff": 1, "a\xfe": 2}, {"a\xff": 2, "a\xfe": 1}, {"a\xff": 1}, {"a\xfe": 1}, {"a�": 1}, {"a\xff": 1, "a�": 2}, {"a�": 1, "a\xff": 2},
-				{"a": 1, "A": 2, "a ": 3, " a": 4, "a\x00": 5}, {"￿": 1, "\U00010000": 2, "": 3}, {"k\"": 1, "k\\": 2, "k<": 3},
+				{"a\xff": 1, "a\xfe": 2}, {"a\xff": 2, "a\xfe": 1}, {"a\xff": 1}, {"a\xfe": 1}, {"a\xef\xbf\xbd": 1}, {"a\xff": 1, "a\xef\xbf\xbd": 2}, {"a\xef\xbf\xbd": 1, "a\xff": 2},
+				{"a": 1, "A": 2, "a ": 3, " a": 4, "a\x00": 5}, {"\xef\xbf\xbf": 1, "\U00010000": 2, "": 3}, {"k\"": 1, "k\\": 2, "k<": 3},
 				{`a":1,"b`: 2}, {"a": 1, "b": 2, "c": 0}, {"a": 0}, {"a": math.Copysign(0, -1)},
 			}
 			for _, m := range sets {
@@ -788,7 +788,7 @@ func keyjsonGen(r *Rng, tier string, idx int, args map[string]string) []string {
 		if len(sliceFields) > 0 {
 			f := Pick(r, sliceFields)
 			for _, xs := range [][]string{nil, {}, {""}, {"", ""}, {"a"}, {"a", "b"}, {"b", "a"}, {"a b"}, {"a,b"}, {`a","b`}, {"ab"}, {"a", "b", ""}, {"", "a", "b"},
-				{"a", "", "b"}, {"[]"}, {"null"}, {"\xff"}, {"\xfe"}, {"�"}, {"a", "\xff"}, {"a\xff"}} {
+				{"a", "", "b"}, {"[]"}, {"null"}, {"\xff"}, {"\xfe"}, {"\xef\xbf\xbd"}, {"a", "\xff"}, {"a\xff"}} {
 				o := base
 				keyjsonSet(&o, f, xs)
 				add(q, o)
